@@ -583,6 +583,8 @@ def switch_programs(seed=0, compatible_cases=True, big=False):
     for ncases, kinds_alpha in plans:
         for kinds in itertools.product(kinds_alpha, repeat=ncases):
             for default in ("none", "last", "grouped"):
+                if kinds[-1] == "fall" and default != "last":
+                    continue   # a switch that ends in an empty case is statically meaningless (C10's business)
                 inst.reset()
                 items = []
                 for ci, kd in enumerate(kinds):
